@@ -27,8 +27,13 @@ impl Recorder for D {
     fn describe_histogram(&self, _: KeyName, _: Option<Unit>, _: SharedString) {
         self.hits[self.id].fetch_add(1, Ordering::SeqCst);
     }
-    fn register_counter(&self, _: &Key, _: &Metadata<'_>) -> Counter {
+    fn register_counter(&self, k: &Key, _: &Metadata<'_>) -> Counter {
         self.hits[self.id].fetch_add(1, Ordering::SeqCst);
+        if k.name() == "nest" {
+            // a recorder that emits a metric of its own while it handles a call (a self-instrumenting exporter): that
+            // emission comes from a thread without a local recorder too
+            metrics::describe_gauge!("inner", "emitted from inside the installed recorder");
+        }
         Counter::noop()
     }
     fn register_gauge(&self, _: &Key, _: &Metadata<'_>) -> Gauge {
@@ -183,6 +188,14 @@ fn process_part(res: &mut PartResult, racers: usize) {
         return;
     }
     metrics::describe_histogram!("post_h", "z");
+    // an emission made from inside one of the installed recorder's own callbacks reaches it as well
+    let before_nest = hits[w].load(Ordering::SeqCst);
+    metrics::counter!("nest").increment(1);
+    if hits[w].load(Ordering::SeqCst) != before_nest + 2 {
+        res.violation("emission-lost-after-install", format!("an emission made by the installed recorder itself while it handled a call: {} of 2 calls (the outer one and the nested one) reached it", hits[w].load(Ordering::SeqCst) - before_nest), replay);
+        return;
+    }
+    hits[w].fetch_sub(2, Ordering::SeqCst);
     for (i, h) in hits.iter().enumerate() {
         let n = h.load(Ordering::SeqCst);
         if i == w && n != 4 + BYSTANDERS {
@@ -225,7 +238,7 @@ fn main() {
     driver::main(CheckDef {
         prop: "C02",
         level: "model_checking",
-        rule: "loom explores every execution (C11 memory model incl. acquire/release and UnsafeCell access ordering) of N installers racing set() with readers doing try_load()+dispatch on a fresh RecorderOnceCell compiled from /repo/metrics/src/recorder/cell.rs, up to the stated preemption bound (none = unbounded); plus one history per run on the real process-global cell (2 / 4 racing installers; seven bystander threads that emitted before, sit inside with_local_recorder, hold a local-recorder guard, have left a local scope (normally or by a caught panic, before or after), or did nothing when the installation happens, and afterwards emit outside any scope: all must reach the installed recorder); distinct = distinct (winner, reader observation) outcomes",
+        rule: "loom explores every execution (C11 memory model incl. acquire/release and UnsafeCell access ordering) of N installers racing set() with readers doing try_load()+dispatch on a fresh RecorderOnceCell compiled from /repo/metrics/src/recorder/cell.rs, up to the stated preemption bound (none = unbounded); plus one history per run on the real process-global cell (2 / 4 racing installers; seven bystander threads that emitted before, sit inside with_local_recorder, hold a local-recorder guard, have left a local scope (normally or by a caught panic, before or after), or did nothing when the installation happens, and afterwards emit outside any scope: all must reach the installed recorder; an emission made by the installed recorder itself from inside a callback reaches it too); distinct = distinct (winner, reader observation) outcomes",
         assumptions: &["loom's model of the C11 memory model", "the path-included cell.rs is the file the metrics crate compiles (same source file, loom types substituted by the cfg(metrics_verif_loom) import twin)", "set_global_recorder/with_recorder wrap the cell without further synchronisation (checked by the process-level part)"],
         parts,
         run,
